@@ -295,6 +295,9 @@ def transpose(op, input, *args):
 
 @register_qbytestensor_op([torch.ops.aten.t])
 def transpose2d(op, input):
+    if input.ndim < 2:
+        # Transposing a 0D or 1D Tensor is a no-op
+        return input
     out_data = op(input._data)
     out_scale = input._scale
     out_axis = input.axis
